@@ -517,6 +517,44 @@ Proof.
     destruct p as [p'|]; [|reflexivity]. simpl. unfold okobj. apply Nat.ltb_lt. apply Lp. reflexivity.
 Qed.
 
+Lemma frameB_lst_set_children s ts vs :
+  WF s -> closedB s -> (forall t, In t ts -> t < length (hp s) /\ ~ B t) ->
+  LinksProofs.pubs s vs -> (forall v, In (Some v) vs -> ~ B v) ->
+  unchangedB s (fst (lst_set_children s ts vs)).
+Proof.
+  intros W C Ht Pv Nv. destruct (all_or_nothing_cases s (lst_set_children_seq s ts vs)) as [E|E];
+    unfold lst_set_children; rewrite E; [|apply unchangedB_refl].
+  unfold lst_set_children_seq.
+  apply (LinksOps.seq_calls_inv (Inv s) (fun s' t => set_children s' t vs)); [|apply Inv_refl; exact W].
+  intros s' t Hin I. destruct (Ht t Hin) as (Lt & Nt).
+  assert (Lt' : t < length (hp s')) by (rewrite (Inv_len s s' I); exact Lt).
+  assert (Pv' : LinksProofs.pubs s' vs) by (intros v Hv; apply (Inv_pub s s' v I); apply Pv; exact Hv).
+  apply (Inv_step s s' _ I).
+  - apply ChildrenProofs.set_children_WF; [apply I | exact Lt' | exact Pv'].
+  - apply StepProofs.set_children_same_shape.
+  - apply frameB_set_children_fn; [apply I | apply (Inv_closed s s' C I) | exact Lt' | apply pubs_oklist; exact Pv'
+                                  | exact Nt | exact Nv].
+Qed.
+
+Lemma frameB_lst_set_links d s ts vs :
+  WF s -> closedB s -> (forall t, In t ts -> LinksProofs.pub s t /\ ~ B t /\ linkfree s t) ->
+  LinksProofs.pubs s vs -> (forall v, In (Some v) vs -> ~ B v) ->
+  unchangedB s (fst (lst_set_links d s ts vs)).
+Proof.
+  intros W C Ht Pv Nv. destruct (all_or_nothing_cases s (lst_set_links_seq d s ts vs)) as [E|E];
+    unfold lst_set_links; rewrite E; [|apply unchangedB_refl].
+  unfold lst_set_links_seq.
+  apply (LinksOps.seq_calls_inv (Inv s) (fun s' t => set_links d s' t vs)); [|apply Inv_refl; exact W].
+  intros s' t Hin I. destruct (Ht t Hin) as (Pt & Nt & Lf).
+  pose proof (proj2 (Inv_pub s s' t I) Pt) as Pt'.
+  assert (Pv' : LinksProofs.pubs s' vs) by (intros v Hv; apply (Inv_pub s s' v I); apply Pv; exact Hv).
+  apply (Inv_step s s' _ I).
+  - apply LinksProofs.set_links_WF; [apply I | exact Pt' | exact Pv'].
+  - apply StepProofs.set_links_same_shape.
+  - apply frameB_set_links_fn; [apply I | apply Pt' | apply pubs_oklist; exact Pv' | exact Nt
+                               | apply (Inv_linkfree s s' t Lf I) | exact Nv].
+Qed.
+
 Lemma frameB_wbs_remove_all s w ids :
   WF s -> closedB s -> ~ B (wroot s w) -> unchangedB s (fst (wbs_remove_all s w ids)).
 Proof.
@@ -627,6 +665,18 @@ Proof.
     + intros t Ht. split; [apply (StepProofs.forallb_pubobj s ts); assumption|].
       apply NB. apply in_app_iff. left. exact Ht.
     + intros p' ->. split; [apply ParentOps.okobj_lt; assumption|]. apply NB. apply in_app_iff. right. left. reflexivity.
+  - (* LstSetChildren *)
+    apply frameB_lst_set_children; try assumption.
+    + intros t Ht. split; [apply (StepProofs.forallb_pubobj s ts); assumption|].
+      apply NB. apply in_app_iff. left. exact Ht.
+    + apply StepProofs.publist_pubs. assumption.
+    + intros v Hv. apply NB. apply in_app_iff. right. apply SomeIn. exact Hv.
+  - (* LstSetLinks *)
+    apply frameB_lst_set_links; try assumption.
+    + intros t Ht. split; [apply (StepProofs.forallb_pubobj s ts); assumption|].
+      split; [apply NB | apply LF]; apply in_app_iff; left; exact Ht.
+    + apply StepProofs.publist_pubs. assumption.
+    + intros v Hv. apply NB. apply in_app_iff. right. apply SomeIn. exact Hv.
   - (* WbsRemove *)
     unfold wbs_remove. destruct t as [t'|]; [|apply unchangedB_refl].
     apply frameB_wbs_remove_task; try assumption. apply Cw. left. reflexivity.
